@@ -7,7 +7,7 @@
     implementation's verdicts: `_partial`. *)
 From Coq Require Import NArith List String Bool.
 From PDL Require Import Base.Bits Lang.Ast Lang.Sexp Analyzer.Schema Analyzer.Desugar Analyzer.Passes Analyzer.Analyze
-     Proofs.AnalyzerSound.
+     Proofs.AnalyzerSound Proofs.AnalyzerSchema.
 Import ListNotations.
 Open Scope N_scope.
 
@@ -51,3 +51,23 @@ Example C08_duplicate_field_rejected :
              [DPacket "P" [] [mkField (Scalar "a" 8) None; mkField (Scalar "a" 8) None] None])
   = ARejected [11].
 Proof. reflexivity. Qed.
+
+(** What ACCEPTANCE gives the backends (Proofs/AnalyzerSchema.v): every enum declaration of
+    the analyzed file has passed the enum check (so the conversions of C15 are exact on it),
+    the analyzed file has distinct declaration identifiers, and the schema the analyzer
+    hands on is the one the backend theorems are about. *)
+Theorem C08_accepted_files_have_checked_enums :
+  forall (file af : file) (sch : aschema),
+    analyze_with_schema file = Accepted (af, sch) ->
+    forall i tags w, In (DEnum i tags w) (f_decls af) -> check_enum_declaration (DEnum i tags w) = [].
+Proof. exact accepted_enums_checked. Qed.
+Print Assumptions C08_accepted_files_have_checked_enums.
+
+Theorem C08_accepted_files_have_distinct_declarations_and_the_backend_schema :
+  forall (file af : file) (sch : aschema),
+    analyze_with_schema file = Accepted (af, sch) ->
+    NoDup (decl_id_list (f_decls af)) /\ PDL.Analyzer.Schema.mk_schema af = Some (as_decls sch).
+Proof.
+  intros file af sch H. split; [eapply accepted_analyzed_nodup; exact H | eapply accepted_mk_schema; exact H].
+Qed.
+Print Assumptions C08_accepted_files_have_distinct_declarations_and_the_backend_schema.
